@@ -87,7 +87,7 @@ func validate(r *row, rs []*scan.PortRange) {
 // tcpWireBits runs the real filler with the options the command would build and returns the 9 flag
 // bits of the serialised TCP header.
 func tcpWireBits(names []string) int64 {
-	f := tcp.NewPacketFiller(append(command.VerifTCPFlagOptions(names), tcp.WithFillerVPNmode(true))...)
+	f := tcp.NewPacketFiller(append(command.VerifC18TCPFlagOptions(names), tcp.WithFillerVPNmode(true))...)
 	buf := gopacket.NewSerializeBuffer()
 	req := &scan.Request{SrcIP: net.IPv4(10, 0, 0, 1).To4(), DstIP: net.IPv4(10, 0, 0, 2).To4(), DstPort: 80}
 	if err := f.Fill(buf, req); err != nil {
@@ -115,47 +115,47 @@ func run(kind, class string, in []byte) row {
 	guard(&r, func() {
 		switch kind {
 		case "portrange":
-			p, err := command.VerifParsePortRange(s)
+			p, err := command.VerifC18ParsePortRange(s)
 			if r.Ok = err == nil; r.Ok {
 				r.Nums = flatPorts([]*scan.PortRange{p})
 				validate(&r, []*scan.PortRange{p})
 			}
 		case "portranges":
-			ps, err := command.VerifParsePortRanges(s)
+			ps, err := command.VerifC18ParsePortRanges(s)
 			if r.Ok = err == nil; r.Ok {
 				r.Nums = flatPorts(ps)
 				validate(&r, ps)
 			}
 		case "portsfile":
-			ps, err := command.VerifParsePortsFile(opener(in))
+			ps, err := command.VerifC18ParsePortsFile(opener(in))
 			if r.Ok = err == nil; r.Ok {
 				r.Nums = flatPorts(ps)
 				validate(&r, ps)
 			}
 		case "rate":
-			n, w, err := command.VerifParseRateLimit(s)
+			n, w, err := command.VerifC18ParseRateLimit(s)
 			if r.Ok = err == nil; r.Ok {
 				r.Nums = []int64{int64(n), int64(w)}
 			}
 		case "payload":
-			b, err := command.VerifParsePacketPayload(s)
+			b, err := command.VerifC18ParsePacketPayload(s)
 			if r.Ok = err == nil; r.Ok {
 				r.Out = hex.EncodeToString(b)
 			}
 		case "ipflags":
-			v, err := command.VerifParseIPFlags(s)
+			v, err := command.VerifC18ParseIPFlags(s)
 			if r.Ok = err == nil; r.Ok {
 				r.Nums = []int64{int64(v), ipWireBits(v)}
 			}
 		case "tcpflags":
-			names, err := command.VerifParseTCPFlags(s)
+			names, err := command.VerifC18ParseTCPFlags(s)
 			if r.Ok = err == nil; r.Ok {
 				r.Out = hex.EncodeToString([]byte(strings.Join(names, ",")))
 				r.Nums = []int64{int64(len(names)), tcpWireBits(names)}
 			}
 		case "exclude":
 			r.Oracle, r.Probes = excludeOracle(in)
-			c, err := command.VerifParseExcludeFile(opener(in))
+			c, err := command.VerifC18ParseExcludeFile(opener(in))
 			if r.Ok = err == nil; r.Ok {
 				for _, p := range r.Probes {
 					in4 := net.IP{byte(p >> 24), byte(p >> 16), byte(p >> 8), byte(p)}
